@@ -15,7 +15,7 @@ use vstd::string::*;
 use vstd::utf8::*;
 use crate::writer_::Indentation;
 use crate::se_::{XmlName, SeError, is_xml_name};
-use crate::seesc_::{QuoteLevel, QuoteTarget, escape_list, p_list};
+use crate::seesc_::{QuoteLevel, QuoteTarget, escape_list, p_list, escape_item, p_item};
 use crate::escfn_::{spec_escape, cow_str_bytes};
 use core::result::Result;
 /// byte strings (the serializer has a type of its own called `Seq`)
@@ -115,14 +115,38 @@ pub trait Serializer: Sized {
     #[verifier::external_body]
     fn serialize_seq(self, len: Option<usize>) -> Result<Self::SerializeSeq, Self::Error> requires self.ok() { unimplemented!() }
 }
-/// Model of serde::ser::SerializeSeq
-pub trait SerializeSeq {
+/// Models of serde::ser::SerializeSeq / SerializeTuple / SerializeTupleVariant. A type may implement several of these
+/// traits, whose methods have the same names; Verus cannot attach `ensures` to such an implementation, so each trait
+/// states its postconditions through spec functions (`*_post`) that the implementor defines.
+pub trait SerializeSeq: Sized {
     type Ok;
     type Error;
-    spec fn ok(&self) -> bool;
+    spec fn seq_ok(&self) -> bool;
+    spec fn seq_elem_post(pre: Self, post: Self, r: Result<(), Self::Error>) -> bool;
+    spec fn seq_end_post(pre: Self, r: Result<Self::Ok, Self::Error>) -> bool;
     fn serialize_element<T: ?Sized + Serialize>(&mut self, value: &T) -> (r: Result<(), Self::Error>)
-        requires old(self).ok();
-    fn end(self) -> Result<Self::Ok, Self::Error> requires self.ok();
+        requires old(self).seq_ok() ensures Self::seq_elem_post(*old(self), *final(self), r);
+    fn end(self) -> (r: Result<Self::Ok, Self::Error>) requires self.seq_ok() ensures Self::seq_end_post(self, r);
+}
+pub trait SerializeTuple: Sized {
+    type Ok;
+    type Error;
+    spec fn tup_ok(&self) -> bool;
+    spec fn tup_elem_post(pre: Self, post: Self, r: Result<(), Self::Error>) -> bool;
+    spec fn tup_end_post(pre: Self, r: Result<Self::Ok, Self::Error>) -> bool;
+    fn serialize_element<T: ?Sized + Serialize>(&mut self, value: &T) -> (r: Result<(), Self::Error>)
+        requires old(self).tup_ok() ensures Self::tup_elem_post(*old(self), *final(self), r);
+    fn end(self) -> (r: Result<Self::Ok, Self::Error>) requires self.tup_ok() ensures Self::tup_end_post(self, r);
+}
+pub trait SerializeTupleVariant: Sized {
+    type Ok;
+    type Error;
+    spec fn tv_ok(&self) -> bool;
+    spec fn tv_field_post(pre: Self, post: Self, r: Result<(), Self::Error>) -> bool;
+    spec fn tv_end_post(pre: Self, r: Result<Self::Ok, Self::Error>) -> bool;
+    fn serialize_field<T: ?Sized + Serialize>(&mut self, value: &T) -> (r: Result<(), Self::Error>)
+        requires old(self).tv_ok() ensures Self::tv_field_post(*old(self), *final(self), r);
+    fn end(self) -> (r: Result<Self::Ok, Self::Error>) requires self.tv_ok() ensures Self::tv_end_post(self, r);
 }
 
 //@extract de::TEXT_KEY | src/de/mod.rs :: const TEXT_KEY | serves=C13,C19 features=serialize
@@ -517,6 +541,35 @@ impl<'w, 'i, W: Write> ContentSerializer<'w, 'i, W> {
 }
 //@end
 
+//@extract simple_type::SimpleSeq | src/se/simple_type.rs :: struct SimpleSeq | serves=C13 features=serialize
+ struct SimpleSeq<W: Write> {
+    writer: W,
+    target: QuoteTarget,
+    level: QuoteLevel,
+    /// If `true`, nothing was written yet to the `writer`
+    is_empty: bool,
+}
+//@end
+//@extract simple_type::AtomicSerializer | src/se/simple_type.rs :: struct AtomicSerializer | serves=C13 features=serialize
+//@rewrite pub(crate) write_delimiter ==> pub write_delimiter
+ struct AtomicSerializer<W: Write> {
+    pub writer: W,
+    pub target: QuoteTarget,
+    /// Defines which XML characters need to be escaped
+    pub level: QuoteLevel,
+    /// When `true` an `xs:list` delimiter (a space) should be written
+    pub write_delimiter: bool,
+}
+//@end
+//@extract element::Tuple | src/se/element.rs :: enum Tuple | serves=C19 features=serialize
+ enum Tuple<'w, 'k, W: Write> {
+    /// Serialize each tuple field as an element
+    Element(ElementSerializer<'w, 'k, W>),
+    /// Serialize tuple as an `xs:list`: space-delimited content of fields
+    Text(SimpleSeq<&'w mut W>),
+}
+//@end
+
 //@extract content::Seq | src/se/content.rs :: struct Seq | serves=C19 features=serialize
  pub struct Seq<'w, 'k, W: Write> {
     pub ser: ContentSerializer<'w, 'k, W>,
@@ -541,7 +594,7 @@ impl<'w, W: Write> SimpleTypeSerializer<&'w mut W> {
 impl<'w, W: Write> Serializer for SimpleTypeSerializer<&'w mut W> {
     type Ok = &'w mut W;
     type Error = SeError;
-    type SerializeSeq = ();
+    type SerializeSeq = SimpleSeq<&'w mut W>;
     open spec fn ok(&self) -> bool { true }
 //@extract simple_type::SimpleTypeSerializer::serialize_str | src/se/simple_type.rs :: impl<W: Write> Serializer for SimpleTypeSerializer<W> :: fn serialize_str | serves=C13 features=serialize
     fn serialize_str(self, value: &str) -> (r: Result<Self::Ok, Self::Error>)
@@ -565,6 +618,16 @@ impl<'w, W: Write> Serializer for SimpleTypeSerializer<&'w mut W> {
         ensures r matches Ok(w) && (*w).out() == (*old(self.writer)).out() && *final(w) == *final(self.writer)
     {
         Ok(self.writer)
+    }
+//@end
+//@extract simple_type::SimpleTypeSerializer::serialize_seq | src/se/simple_type.rs :: impl<W: Write> Serializer for SimpleTypeSerializer<W> :: fn serialize_seq | serves=C13 features=serialize
+    fn serialize_seq(self, _len: Option<usize>) -> Result<Self::SerializeSeq, Self::Error> {
+        Ok(SimpleSeq {
+            writer: self.writer,
+            target: self.target,
+            level: self.level,
+            is_empty: true,
+        })
     }
 //@end
 //@extract simple_type::SimpleTypeSerializer::serialize_unit_struct | src/se/simple_type.rs :: impl<W: Write> Serializer for SimpleTypeSerializer<W> :: fn serialize_unit_struct | serves=C13 features=serialize
@@ -663,16 +726,18 @@ impl<'w, 'i, W: Write> Serializer for ContentSerializer<'w, 'i, W> {
 impl<'w, 'i, W: Write> SerializeSeq for Seq<'w, 'i, W> {
     type Ok = WriteResult;
     type Error = SeError;
-    closed spec fn ok(&self) -> bool { self.ser.indent.wf() }
+    closed spec fn seq_ok(&self) -> bool { self.ser.indent.wf() }
+    /// C19: the indent flag for the NEXT item is set exactly when this item was markup or nothing -- never after text
+    closed spec fn seq_elem_post(pre: Self, post: Self, r: Result<(), SeError>) -> bool {
+        &&& r is Ok ==> post.ser.write_indent == (post.last is Element || post.last is Nothing)
+        &&& post.ser.level == pre.ser.level && post.ser.expand_empty_elements == pre.ser.expand_empty_elements
+    }
+    /// C19: a sequence is classified as its last item
+    closed spec fn seq_end_post(pre: Self, r: Result<WriteResult, SeError>) -> bool { r matches Ok(x) && x == pre.last }
 //@extract content::Seq::serialize_element | src/se/content.rs :: impl<'w, 'i, W: Write> SerializeSeq for Seq<'w, 'i, W> :: fn serialize_element | serves=C19 features=serialize
-    fn serialize_element<T>(&mut self, value: &T) -> (r: Result<(), Self::Error>)
+    fn serialize_element<T>(&mut self, value: &T) -> Result<(), Self::Error>
     where
         T: ?Sized + Serialize,
-        ensures
-            // C19: the indent flag for the NEXT item is set exactly when this item was markup or nothing -- never after text
-            r is Ok ==> final(self).ser.write_indent == (final(self).last is Element || final(self).last is Nothing),
-            *final(final(self).ser.writer) == *final(old(self).ser.writer),
-            final(self).ser.level == old(self).ser.level, final(self).ser.expand_empty_elements == old(self).ser.expand_empty_elements,
     {
         self.last = value.serialize(self.ser.new_seq_element_serializer(self.last.is_text()))?;
         // Write indent for next element if indents are used
@@ -681,10 +746,7 @@ impl<'w, 'i, W: Write> SerializeSeq for Seq<'w, 'i, W> {
     }
 //@end
 //@extract content::Seq::end | src/se/content.rs :: impl<'w, 'i, W: Write> SerializeSeq for Seq<'w, 'i, W> :: fn end | serves=C19 features=serialize
-    fn end(self) -> (r: Result<Self::Ok, Self::Error>)
-        // C19: a sequence is classified as its last item
-        ensures r matches Ok(x) && x == self.last && *final(self.ser.writer) == *old(self.ser.writer)
-    {
+    fn end(self) -> Result<Self::Ok, Self::Error> {
         Ok(self.last)
     }
 //@end
@@ -887,6 +949,206 @@ impl<'w, 'k, W: Write> ElementSerializer<'w, 'k, W> {
         Err(SeError::Unsupported(
             errmsg_(),
         ))
+    }
+//@end
+}
+
+// ---- xs:list: SimpleSeq and its item serializer (verified at W := &mut W0, see SimpleTypeSerializer) ----
+impl<'w, W: Write> SerializeSeq for SimpleSeq<&'w mut W> {
+    type Ok = &'w mut W;
+    type Error = SeError;
+    open spec fn seq_ok(&self) -> bool { true }
+    /// C13: every item is written by an item serializer set up for the same position and level
+    open spec fn seq_elem_post(pre: Self, post: Self, r: Result<(), SeError>) -> bool {
+        post.target == pre.target && post.level == pre.level && (r is Ok && !pre.is_empty ==> !post.is_empty)
+    }
+    open spec fn seq_end_post(pre: Self, r: Result<&'w mut W, SeError>) -> bool { r is Ok }
+//@extract simple_type::SimpleSeq::serialize_element | src/se/simple_type.rs :: impl<W: Write> SerializeSeq for SimpleSeq<W> :: fn serialize_element | serves=C13 features=serialize
+    fn serialize_element<T>(&mut self, value: &T) -> Result<(), Self::Error>
+    where
+        T: ?Sized + Serialize,
+    {
+        if value.serialize(AtomicSerializer {
+            writer: &mut self.writer,
+            target: self.target,
+            level: self.level,
+            write_delimiter: !self.is_empty,
+        })? {
+            self.is_empty = false;
+        }
+        Ok(())
+    }
+//@end
+//@extract simple_type::SimpleSeq::end | src/se/simple_type.rs :: impl<W: Write> SerializeSeq for SimpleSeq<W> :: fn end | serves=C13 features=serialize
+    fn end(self) -> Result<Self::Ok, Self::Error> {
+        Ok(self.writer)
+    }
+//@end
+}
+impl<'w, W: Write> SerializeTuple for SimpleSeq<&'w mut W> {
+    type Ok = &'w mut W;
+    type Error = SeError;
+    open spec fn tup_ok(&self) -> bool { true }
+    open spec fn tup_elem_post(pre: Self, post: Self, r: Result<(), SeError>) -> bool {
+        post.target == pre.target && post.level == pre.level && (r is Ok && !pre.is_empty ==> !post.is_empty)
+    }
+    open spec fn tup_end_post(pre: Self, r: Result<&'w mut W, SeError>) -> bool { r is Ok }
+//@extract simple_type::SimpleSeq::tuple_serialize_element | src/se/simple_type.rs :: impl<W: Write> SerializeTuple for SimpleSeq<W> :: fn serialize_element | serves=C13 features=serialize
+    fn serialize_element<T>(&mut self, value: &T) -> Result<(), Self::Error>
+    where
+        T: ?Sized + Serialize,
+    {
+        SerializeSeq::serialize_element(self, value)
+    }
+//@end
+//@extract simple_type::SimpleSeq::tuple_end | src/se/simple_type.rs :: impl<W: Write> SerializeTuple for SimpleSeq<W> :: fn end | serves=C13 features=serialize
+    fn end(self) -> Result<Self::Ok, Self::Error> {
+        SerializeSeq::end(self)
+    }
+//@end
+}
+impl<'a, W: Write> AtomicSerializer<&'a mut W> {
+//@extract simple_type::AtomicSerializer::write_str | src/se/simple_type.rs :: impl<W: Write> AtomicSerializer<W> :: fn write_str | serves=C13 features=serialize
+    fn write_str(&mut self, value: &str) -> Result<(), SeError> {
+        if self.write_delimiter {
+            // TODO: Customization point -- possible non-XML compatible extension to specify delimiter char
+            self.writer.write_char(' ')?;
+        }
+        Ok(self.writer.write_str(value)?)
+    }
+//@end
+}
+impl<'a, W: Write> Serializer for AtomicSerializer<&'a mut W> {
+    type Ok = bool;
+    type Error = SeError;
+    type SerializeSeq = ();
+    open spec fn ok(&self) -> bool { true }
+//@extract simple_type::AtomicSerializer::serialize_str | src/se/simple_type.rs :: impl<W: Write> Serializer for AtomicSerializer<W> :: fn serialize_str | serves=C13 features=serialize
+    fn serialize_str(self, value: &str) -> Result<Self::Ok, Self::Error> { let mut self__ = self;
+        if !value.is_empty() {
+            self__.write_str(&escape_item(value, self__.target, self__.level))?;
+        }
+        Ok(!value.is_empty())
+    }
+//@end
+//@extract simple_type::AtomicSerializer::serialize_none | src/se/simple_type.rs :: impl<W: Write> Serializer for AtomicSerializer<W> :: fn serialize_none | serves=C13 features=serialize
+    fn serialize_none(self) -> Result<Self::Ok, Self::Error> {
+        Ok(false)
+    }
+//@end
+//@extract simple_type::AtomicSerializer::serialize_unit | src/se/simple_type.rs :: impl<W: Write> Serializer for AtomicSerializer<W> :: fn serialize_unit | serves=C13 features=serialize n15=1
+    /// We cannot store anything, so the absence of a unit and presence of it
+    /// does not differ, so serialization of unit returns `Err(Unsupported)`
+    fn serialize_unit(self) -> Result<Self::Ok, Self::Error> {
+        Err(SeError::Unsupported(
+            errmsg_(),
+        ))
+    }
+//@end
+//@extract simple_type::AtomicSerializer::serialize_unit_variant | src/se/simple_type.rs :: impl<W: Write> Serializer for AtomicSerializer<W> :: fn serialize_unit_variant | serves=C13 features=serialize
+    fn serialize_unit_variant(
+        self,
+        _name: &'static str,
+        _variant_index: u32,
+        variant: &'static str,
+    ) -> Result<Self::Ok, Self::Error> {
+        self.serialize_str(variant)
+    }
+//@end
+//@extract simple_type::AtomicSerializer::serialize_seq | src/se/simple_type.rs :: impl<W: Write> Serializer for AtomicSerializer<W> :: fn serialize_seq | serves=C13 features=serialize n15=1
+    fn serialize_seq(self, _len: Option<usize>) -> Result<Self::SerializeSeq, Self::Error> {
+        Err(SeError::Unsupported(
+            errmsg_(),
+        ))
+    }
+//@end
+}
+// ---- sequences of elements and tuple variants ----
+impl<'w, 'k, W: Write> SerializeSeq for ElementSerializer<'w, 'k, W> {
+    type Ok = WriteResult;
+    type Error = SeError;
+    closed spec fn seq_ok(&self) -> bool { self.ser.indent.wf() && is_xml_name(self.key.0@) }
+    /// C19: each item is an element `<key>..</key>`: markup, so the next item is indented; C13: same validated name
+    closed spec fn seq_elem_post(pre: Self, post: Self, r: Result<(), SeError>) -> bool {
+        &&& r is Ok ==> post.ser.write_indent
+        &&& post.key == pre.key && post.ser.level == pre.ser.level && post.ser.expand_empty_elements == pre.ser.expand_empty_elements
+    }
+    closed spec fn seq_end_post(pre: Self, r: Result<WriteResult, SeError>) -> bool { r matches Ok(x) && x is Element }
+//@extract element::ElementSerializer::seq_serialize_element | src/se/element.rs :: impl<'w, 'k, W: Write> SerializeSeq for ElementSerializer<'w, 'k, W> :: fn serialize_element | serves=C13,C19 features=serialize
+    fn serialize_element<T>(&mut self, value: &T) -> Result<(), Self::Error>
+    where
+        T: ?Sized + Serialize,
+    {
+        value.serialize(ElementSerializer {
+            ser: self.ser.new_seq_element_serializer(true),
+            key: self.key,
+        })?;
+        // Write indent for the next element
+        self.ser.write_indent = true;
+        Ok(())
+    }
+//@end
+//@extract element::ElementSerializer::seq_end | src/se/element.rs :: impl<'w, 'k, W: Write> SerializeSeq for ElementSerializer<'w, 'k, W> :: fn end | serves=C19 features=serialize
+    fn end(self) -> Result<Self::Ok, Self::Error> {
+        Ok(WriteResult::Element)
+    }
+//@end
+}
+impl<'w, 'k, W: Write> SerializeTuple for ElementSerializer<'w, 'k, W> {
+    type Ok = WriteResult;
+    type Error = SeError;
+    closed spec fn tup_ok(&self) -> bool { self.ser.indent.wf() && is_xml_name(self.key.0@) }
+    closed spec fn tup_elem_post(pre: Self, post: Self, r: Result<(), SeError>) -> bool {
+        &&& r is Ok ==> post.ser.write_indent
+        &&& post.key == pre.key && post.ser.level == pre.ser.level && post.ser.expand_empty_elements == pre.ser.expand_empty_elements
+    }
+    closed spec fn tup_end_post(pre: Self, r: Result<WriteResult, SeError>) -> bool { r matches Ok(x) && x is Element }
+//@extract element::ElementSerializer::tuple_serialize_element | src/se/element.rs :: impl<'w, 'k, W: Write> SerializeTuple for ElementSerializer<'w, 'k, W> :: fn serialize_element | serves=C13,C19 features=serialize
+    fn serialize_element<T>(&mut self, value: &T) -> Result<(), Self::Error>
+    where
+        T: ?Sized + Serialize,
+    {
+        SerializeSeq::serialize_element(self, value)
+    }
+//@end
+//@extract element::ElementSerializer::tuple_end | src/se/element.rs :: impl<'w, 'k, W: Write> SerializeTuple for ElementSerializer<'w, 'k, W> :: fn end | serves=C19 features=serialize
+    fn end(self) -> Result<Self::Ok, Self::Error> {
+        SerializeSeq::end(self)
+    }
+//@end
+}
+impl<'w, 'k, W: Write> SerializeTupleVariant for Tuple<'w, 'k, W> {
+    type Ok = WriteResult;
+    type Error = SeError;
+    closed spec fn tv_ok(&self) -> bool { self matches Tuple::Element(e) ==> e.ser.indent.wf() && is_xml_name(e.key.0@) }
+    closed spec fn tv_field_post(pre: Self, post: Self, r: Result<(), SeError>) -> bool {
+        (pre is Element) == (post is Element)
+    }
+    /// C19: a tuple variant written as elements is markup; written as `$text` (an xs:list) it is text in which
+    /// whitespace counts: no indent may follow it
+    closed spec fn tv_end_post(pre: Self, r: Result<WriteResult, SeError>) -> bool {
+        r matches Ok(x) ==> (pre is Element ==> x is Element) && (pre is Text ==> x is SensitiveText)
+    }
+//@extract element::Tuple::serialize_field | src/se/element.rs :: impl<'w, 'k, W: Write> SerializeTupleVariant for Tuple<'w, 'k, W> :: fn serialize_field | serves=C19 features=serialize
+    fn serialize_field<T>(&mut self, value: &T) -> Result<(), Self::Error>
+    where
+        T: ?Sized + Serialize,
+    {
+        match self {
+            Self::Element(ser) => SerializeTuple::serialize_element(ser, value),
+            Self::Text(ser) => SerializeTuple::serialize_element(ser, value),
+        }
+    }
+//@end
+//@extract element::Tuple::end | src/se/element.rs :: impl<'w, 'k, W: Write> SerializeTupleVariant for Tuple<'w, 'k, W> :: fn end | serves=C19 features=serialize
+//@rewrite .map(|_| WriteResult::SensitiveText) ==> .map(|_w: &'w mut W| WriteResult::SensitiveText)
+    fn end(self) -> Result<Self::Ok, Self::Error> {
+        match self {
+            Self::Element(ser) => SerializeTuple::end(ser),
+            // Do not write indent after `$text` fields because it may be interpreted as
+            // part of content when deserialize
+            Self::Text(ser) => SerializeTuple::end(ser).map(|_w: &'w mut W| WriteResult::SensitiveText),
+        }
     }
 //@end
 }
